@@ -501,34 +501,53 @@ TextShapeLaw == Formatting =>
                    = StripZ(TextDigits(kj[1], kj[2], fmt))
 
 -----------------------------------------------------------------------------
-(* test-vector export: an "invariant" that is always TRUE and prints *)
+(* test-vector export: an "invariant" that is always TRUE and prints.       *)
+(* To keep the vectors small a result is printed without its tag:           *)
+(*   a text as its codes (all >= 1), #VALUE! as <<0>>, unjudged as <<-1>>;  *)
+(*   a FIND answer as the set of allowed positions, 0 = #VALUE!, -1 =       *)
+(*   unjudged; a logical as TRUE/FALSE.  Tables over Pos are printed as     *)
+(*   sequences in the order of Pos (an interval, its bounds are exported).  *)
+
+ASSUME \E lo \in Pos, hi \in Pos : Pos = lo..hi
+PosLo == SetMin(Pos)
+NPos  == Cardinality(Pos)
+PosAt(i) == PosLo + i - 1
+
+EncT(v) == IF v = Unjudged THEN <<-1>> ELSE IF IsErr(v) THEN <<0>> ELSE v[2]
+EncN(v) == IF v = Unjudged THEN -1 ELSE IF IsErr(v) THEN 0 ELSE v[2]
 
 ExportSlicing ==
   [kind    |-> "slice",
    src     |-> src,
    s       |-> s,
-   len     |-> LenF(s),
-   left    |-> [n \in Pos |-> Left(s, n)],
-   right   |-> [k \in Pos |-> Right(s, k)],
-   mid     |-> [p \in Pos |-> [c \in Pos |-> Mid(s, p, c)]],
-   replace |-> {[t |-> t, r |-> [n \in Pos |-> [k \in Pos |-> Replace(s, n, k, t)]]]
+   pos     |-> <<PosLo, PosLo + NPos - 1>>,
+   len     |-> LenF(s)[2],
+   left    |-> [i \in 1..NPos |-> EncT(Left(s, PosAt(i)))],
+   right   |-> [i \in 1..NPos |-> EncT(Right(s, PosAt(i)))],
+   mid     |-> [i \in 1..NPos |-> [c \in 1..NPos |-> EncT(Mid(s, PosAt(i), PosAt(c)))]],
+   replace |-> {[t |-> t,
+                 r |-> [i \in 1..NPos |-> [c \in 1..NPos |->
+                          EncT(Replace(s, PosAt(i), PosAt(c), t))]]]
                   : t \in NewTexts},
-   find    |-> {[f |-> f, r |-> [st \in Pos |-> FindAllowed(f, s, st)]]
+   find    |-> {[f |-> f,
+                 r |-> [i \in 1..NPos |-> {EncN(a) : a \in FindAllowed(f, s, PosAt(i))}]]
                   : f \in FindTexts(s)},
-   subst   |-> {[o |-> o, t |-> t, all |-> SubstituteAll(s, o, t),
-                 nth |-> [i \in 0..(Occurrences(s, o) + 1) |-> SubstituteNth(s, o, t, i)]]
+   \* nth[i] is SUBSTITUTE(s, o, t, i - 1): instance 0 (unjudged) first
+   subst   |-> {[o |-> o, t |-> t, all |-> EncT(SubstituteAll(s, o, t)),
+                 nth |-> [i \in 1..(Occurrences(s, o) + 2) |->
+                            EncT(SubstituteNth(s, o, t, i - 1))]]
                   : o \in FindTexts(s), t \in NewTexts},
-   concat  |-> {[t |-> t, r |-> Concatenate(<<T(s), T(t)>>),
-                 r3 |-> Concatenate(<<T(s), T(t), T(s)>>)] : t \in NewTexts},
-   exact   |-> {[t |-> t, r |-> Exact(s, t)]
+   concat  |-> {[t |-> t, r |-> EncT(Concatenate(<<T(s), T(t)>>)),
+                 r3 |-> EncT(Concatenate(<<T(s), T(t), T(s)>>))] : t \in NewTexts},
+   exact   |-> {[t |-> t, r |-> Exact(s, t)[2]]
                   : t \in NewTexts \cup {s, Upper(s), Lower(s), Trim(s)}},
-   trim    |-> T(Trim(s)),
-   upper   |-> T(Upper(s)),
-   lower   |-> T(Lower(s))]
+   trim    |-> Trim(s),
+   upper   |-> Upper(s),
+   lower   |-> Lower(s)]
 
 ExportText ==
   [kind |-> "text", fmt |-> fmt,
-   r |-> {[k |-> kj[1], j |-> kj[2], r |-> TextOf(kj[1], kj[2], fmt)] : kj \in Nums}]
+   r |-> {[k |-> kj[1], j |-> kj[2], r |-> EncT(TextOf(kj[1], kj[2], fmt))] : kj \in Nums}]
 
 Export ==
   IF Slicing THEN PrintT(ToJson(ExportSlicing))
